@@ -289,7 +289,23 @@ func (p *Program) computeHeldOnEntry() {
 		case *ssa.Go:
 			return lockSet{}, false
 		case *ssa.Defer:
-			return lockSet{}, false
+			// the deferred call runs when the caller returns: what the caller's own callers hold throughout (held on the
+			// caller's entry) is still held then, unless the caller itself releases it
+			out := lockSet{}
+			for l, m := range cs.set {
+				released := false
+				for _, b := range caller.Blocks {
+					for _, in := range b.Instrs {
+						if op, f := lockOp(in); f == l && (op == "Unlock" || op == "RUnlock") {
+							released = true
+						}
+					}
+				}
+				if !released {
+					out[l] = m
+				}
+			}
+			return out, false
 		}
 		if e.Site == nil {
 			return cs.set, false
